@@ -5,9 +5,9 @@ From Flocq Require Import Core.Raux.
 From Inferno Require Import Base.Num Base.NumR C19.Encoders C19.EncodersLists C19.EncodersPoisson C19.EncodersProofs.
 Import ListNotations.
 Open Scope R_scope.
-Theorem hpe_online_yields_steps : forall (coded : bool) (shape : list nat) (c : config RN) (xs draws0 : list (T RN))
-    (draws : list (list (T RN))) (outs : list (list bool)),
-  hpe_online RN coded shape c xs draws0 draws = Ok (outs, false) ->
+Theorem hpe_online_yields_steps : forall (c : config RN) (xs draws0 : list (T RN)) (draws : list (list (T RN)))
+    (outs : list (list bool)),
+  hpe_online RN c xs draws0 draws = Ok outs ->
   length draws0 = length xs ->
   length outs = Z.to_nat (c_steps c) /\
   (0 < c_steps c)%Z /\ Forall (fun row : list bool => length row = length xs) outs.
